@@ -1,6 +1,6 @@
 (* Evaluation entry point used by the correspondence check of C15 (harness/c15.py).      *)
 From Coq Require Import List ZArith Bool.
-From PV Require Import Base.Exn Model.RetrySem Spec.RetrySpec Gen.Retry.
+From PV Require Import Base.Exn Model.RetrySem Model.RetryGroups Spec.RetrySpec Gen.Retry.
 Import ListNotations.
 Open Scope Z_scope.
 
@@ -18,5 +18,16 @@ Definition eval_case (attempts : Z) (spec : list exn) (l : list oc) (tail : oc) 
   let outs := outs_of l tail in
   let r := retry_run Gen.Retry.retry_cfg attempts listed outs in
   let n := spec_calls_exec attempts listed outs in
+  enc_result (fst r) ++ [Z.of_nat n] ++ map enc_event (filter not_log (snd r)) ++ [-1]
+  ++ map enc_event (spec_trace n).
+
+(* the same over exception OBJECTS (plain instances and exception groups, Model/RetryGroups.v): the loop
+   sees the class of the raised object (oc_of); the demanded count is computed by the object-level
+   specification (spec_calls_exec_x), independently of that projection *)
+Definition eval_case_x (attempts : Z) (spec : list exn) (l : list xoc) (tail : xoc) : list Z :=
+  let listed := listed_g spec in
+  let xouts := xouts_of l tail in
+  let r := retry_run Gen.Retry.retry_cfg attempts listed (fun i => oc_of (xouts i)) in
+  let n := spec_calls_exec_x attempts listed xouts in
   enc_result (fst r) ++ [Z.of_nat n] ++ map enc_event (filter not_log (snd r)) ++ [-1]
   ++ map enc_event (spec_trace n).
